@@ -114,12 +114,25 @@ def make_node(L, sim, med, role, level, dhcp):
     return node, chip, addr
 
 
+def configure_node(node, case, addr):
+    """optional public configuration before the frames arrive: multicast relaying on, fragmentation off, the node moved to
+    its address from another one with the public setter (network roles)"""
+    if case.get("readdress") is not None and case["role"] in ("router", "net"):
+        node.node_address = case["readdress"]
+        node.node_address = addr
+    if case.get("relay"):
+        node.multicast_relay = True
+    if case.get("frag_off"):
+        node.fragmentation = False
+
+
 def run_frames(case):
     L = boot.lib()
     res = Result()
     sim = Sim(horizon_ns=600_000 * MS, mcu=Mcu(spi_base=150 * US, clock=20 * US))
     med = Medium(sim)
     node, chip, addr = make_node(L, sim, med, case["role"], case["level"], case.get("dhcp", []))
+    configure_node(node, case, addr)
     X = Chip(sim, med, "X")
     x = Raw(sim, X)
     x.w(0, 0x0E)
@@ -294,6 +307,34 @@ def _master_request_sweep():
                    "frames": [{"pipe": netaddr.digits(a)[0] if a != 0o4444 else 0, "hex": struct.pack("<HHHBB", a, 0, 5, 195, rid).hex()}]}
 
 
+def _fragment_histories(depth):
+    """every sequence of `depth` frames over {FIRST, MORE, LAST, LAST of another id, plain} from one origin, addressed to the
+    node itself / to the multicast address / to a child, for every role and level, with multicast relaying on or off and
+    fragmentation on or off: completed, repeated, stray and orphaned fragments must never make update() raise"""
+    def frame(kind, o, d, n):
+        t, r, fid = {"first": (148, 2, 7), "more": (149, 1, 7), "last": (150, 65, 7), "last2": (150, 65, 8), "plain": (65, 0, 9)}[kind]
+        return (struct.pack("<HHHBB", o, d, fid, t, r) + bytes([n] * (24 if kind in ("first", "more") else 5))).hex()
+
+    for role, levels in ROLES:
+        for level in levels:
+            addr = LEVEL_ADDR[level] if role not in ("meshfree",) and not (role == "meshnode" and level == 0) else 0o4444
+            if role == "master":
+                addr = 0
+            dests = {"self": addr, "mc": 0o100}
+            if addr != 0o4444 and level < 4:
+                dests["child"] = addr | (2 << (3 * level))
+            origin = 0o5 if addr != 0o5 else 0o4
+            for dn, d in sorted(dests.items()):
+                for opts in ({}, {"relay": True}, {"frag_off": True}, {"relay": True, "readdress": 0o111}):
+                    if opts.get("relay") and dn != "mc":
+                        continue
+                    for w in itertools.product(("first", "more", "last", "last2", "plain"), repeat=depth):
+                        fr = [{"pipe": 0 if d == 0o100 else 2, "hex": frame(k, origin, d, i)} for i, k in enumerate(w)]
+                        yield dict({"kind": "frames", "role": role, "level": level, "dhcp": DHCP, "frames": fr[:3], "steps": True}, **opts)
+                        if depth > 3:
+                            yield dict({"kind": "frames", "role": role, "level": level, "dhcp": DHCP, "frames": fr, "steps": True}, **opts)
+
+
 def _short_frames():
     for role, levels in ROLES:
         for level in levels:
@@ -331,8 +372,15 @@ def _strategy():
     @st.composite
     def case(draw):
         role, levels = draw(st.sampled_from(ROLES + [("master", (0,))]))
-        return {"kind": "frames", "role": role, "level": draw(st.sampled_from(levels)), "dhcp": draw(dhcp),
-                "batch": draw(st.booleans()), "frames": draw(st.lists(frame(), min_size=1, max_size=6))}
+        c = {"kind": "frames", "role": role, "level": draw(st.sampled_from(levels)), "dhcp": draw(dhcp),
+             "batch": draw(st.booleans()), "frames": draw(st.lists(frame(), min_size=1, max_size=6))}
+        if draw(st.integers(0, 3)) == 0:
+            c["relay"] = True
+        if draw(st.integers(0, 5)) == 0:
+            c["frag_off"] = True
+        if draw(st.integers(0, 4)) == 0:
+            c["readdress"] = draw(st.sampled_from([0o1, 0o15, 0o111, 0o1111, 0o4444]))
+        return c
 
     return case()
 
@@ -388,6 +436,7 @@ def parts(tier):
                 Part("short-frames", "enum", _steps(_short_frames), exhaustive=True),
                 Part("master-histories", "enum", _steps(_master_histories), exhaustive=True),
                 Part("master-request-from-every-address", "enum", _master_request_sweep, exhaustive=True),
+                Part("fragment-histories-depth3", "enum", lambda: _fragment_histories(3), exhaustive=True),
                 Part("structured", "enum", _structured((0, 2, 24), range(0, 256)), exhaustive=True),
                 Part("generated", "gen", _steps_strategy, n=3000),
                 Part("atheris", "fuzz", lambda: {"decoder": "vlib.checks.c15_robust:decode_bytes", "seconds": 15, "max_len": 140}, n=0)]
@@ -395,6 +444,7 @@ def parts(tier):
             Part("short-frames", "enum", _steps(_short_frames), exhaustive=True),
             Part("master-histories", "enum", _steps(_master_histories), exhaustive=True),
             Part("master-request-from-every-address", "enum", _master_request_sweep, exhaustive=True),
+            Part("fragment-histories-depth4", "enum", lambda: _fragment_histories(4), exhaustive=True),
             Part("structured", "enum", _steps(_structured(tuple(range(0, 25)), range(0, 256))), exhaustive=True),
             Part("generated", "gen", _steps_strategy, n=150000),
             Part("atheris", "fuzz", lambda: {"decoder": "vlib.checks.c15_robust:decode_bytes", "seconds": 600, "max_len": 140}, n=0)]
